@@ -302,12 +302,16 @@ PROPS = {    "C01": {
              "thorough": {"entry": "VerifHarness_C20_guards3", "flags": ["-unwind", "16", "-solver", "cvc5", "-fallback", "z3", "-query-timeout-ms", "5000"],
                           "bounds": {"recorded_nodes": 3, "name_len": 3, "string_len": 6}}},
             {"name": "C20.params", "pkg": "./cmd", "replay": "R1",
-             "quick": {"entry": "VerifHarness_C20_params3", "flags": ["-unwind", "16", "-solver", "cvc5", "-fallback", "z3", "-query-timeout-ms", "5000"], "bounds": {"param_len": "0..3"}},
-             "thorough": {"entry": "VerifHarness_C20_params6", "flags": ["-unwind", "16", "-solver", "cvc5", "-fallback", "z3", "-query-timeout-ms", "5000"], "bounds": {"param_len": "0..6"}}},
+             "quick": {"entry": "VerifHarness_C20_params3", "flags": ["-unwind", "16", "-solver", "cvc5", "-fallback", "z3", "-query-timeout-ms", "5000", "-bytes"], "bounds": {"param_len": "0..3 bytes, every well-formed UTF-8 string (byte mode)"}},
+             "thorough": {"entry": "VerifHarness_C20_params4", "flags": ["-unwind", "16", "-solver", "cvc5", "-fallback", "z3", "-query-timeout-ms", "5000", "-bytes"], "bounds": {"param_len": "0..4 bytes, every well-formed UTF-8 string (byte mode)"}}},
+            {"name": "C20.params-ascii", "pkg": "./cmd", "replay": "R1",
+             "quick": {"entry": "VerifHarness_C20_params3", "flags": ["-unwind", "16", "-solver", "cvc5", "-fallback", "z3", "-query-timeout-ms", "5000"], "bounds": {"param_len": "0..3 (ASCII)"}},
+             "thorough": {"entry": "VerifHarness_C20_params6", "flags": ["-unwind", "16", "-solver", "cvc5", "-fallback", "z3", "-query-timeout-ms", "5000"], "bounds": {"param_len": "0..6 (ASCII)"}}},
         ],
         "assumptions": ["Handler.postAction is driven directly over a recording fake client.Client (go-swagger binding/validation outside)",
                         "the status edit is checked on the object handed to client.UpdateStatus; the persistence of that object is C06's subject",
-                        "C20.params: the spawned command line is modelled as Sprintf(quote, escapeArg(p)) -> removeQuotes, the three real functions; process spawning itself is outside"],
+                        "C20.params: the spawned command line is modelled as Sprintf(quote, escapeArg(p)) -> removeQuotes, the three real functions; process spawning itself is outside",
+                        "C20.params runs in byte mode (-bytes): strings are byte strings 0..255, `range` over a string decodes UTF-8 (fork over the well-formed sequence classes + ill-formed), WriteRune encodes; the parameter is assumed well-formed UTF-8 (utf8.ValidString, as a decoded JSON string is)"],
         "outside_claim": COMMON_OUTSIDE + ["go-swagger parameter binding/validation, remote-node proxying, process spawning", "sequences of several API actions over the real stores (C20.edit over the real client: not built)"],
     },
     "C14": {
